@@ -280,7 +280,19 @@ func (k c14) negative(c *rt.Ctx, st *gen.Store) {
 		n, f := c14Faulty(r, gen.TB)
 		q, fault, pos = sel("*", gen.Print(n)), f, "top"
 	case 2: // under !
-		if r.Bool() {
+		if c.Case%3 == 0 {
+			// ! binds tighter than a comparison: `!!strlen(value) > 1` negates a number twice, and
+			// what is left once both ! are taken away would be a well-typed filter
+			rest := []string{"strlen(value) > 1", "upper(key) = 'K1'", "int(value) in (1, 2)", "int(value) + 1 >= 2", "lower(value) ^= 'a'", "strlen(key) between 1 and 3"}[r.Intn(6)]
+			w := "!!" + rest
+			if r.Bool() {
+				w = "key ^= 'k' & " + w
+			}
+			q, fault, pos = sel("*", w), "non-boolean-not", "under-double-not"
+			if r.Chance(1, 4) {
+				q = "delete where " + w
+			}
+		} else if r.Bool() {
 			n, f := c14Faulty(r, gen.TB)
 			q, fault, pos = sel("*", gen.Print(gen.Not(n))), f, "under-not"
 		} else {
